@@ -34,7 +34,7 @@ PLANS = {
     "C09": plan(shards(20, 300), tool("miri.sh", ["c09"], 3000), tool("memcheck.sh", ["C09"], 3000)),
     "C10": plan(shards(30, 480, mode="script", n=12), shards(20, 300, mode="faults", n=3),
                 shards(12, 120, mode="shutdown-race", n=1)),
-    "C11": plan(shards(20, 360, mode="two", n=12), shards(20, 360, mode="three", n=4)),
+    "C11": plan(shards(20, 360, mode="two", n=10), shards(20, 360, mode="three", n=3), shards(20, 300, mode="net", n=3)),
     "C12": plan(shards(20, 300), tool("miri.sh", ["c12"], 3000), tool("tsan.sh", ["C12"], 3000)),
     "C13": plan(shards(15, 240)),
     "C14": plan(shards(20, 300), tool("tsan.sh", ["C14"], 3000)),
@@ -81,14 +81,18 @@ RULES = {
            "length prefixes 2^30, 2^30+1, u32::MAX, single-byte corruption), signed entries (every truncation, corruption, identifier "
            "lengths 0..69, random strings), protocol messages, head reports and tickets, capabilities / filters / policies / queries. "
            "non-trivial = a real, well-formed value that was round-tripped; distinct = hash of its encoding.",
-    "C10": "script mode: every sequence of length <=3 (quick) / <=4 over 14 adversarial frames, against the initiator and against the "
+    "C10": "script mode: every sequence of length <=3 (quick) / <=4 over 15 adversarial frames, against the initiator and against the "
            "acceptor with 4 accept decisions (exhaustive per run when all shards finish; evidence counts the sequences done). faults "
            "mode: generated pairs x every frame index x {close replica, sync off, actor shutdown, cut, cut inside frame} x side. "
            "shutdown-race mode: 2..6 clients issuing requests while the actor is shut down. non-trivial = every sequence / pair with >=3 frames; distinct = hash.",
     "C11": "case = random schedule (<=6 dials, <=14 quick / 24 thorough events) over two or three real live actors on a fresh document: "
            "dial decisions (new neighbour / sync report / direct join), request delivery or loss, decline reply delivered or lost, both "
            "session ends finishing Ok or with each error class in any order, ending with a probe dial at quiescence. "
-           "non-trivial = >=4 events; distinct = hash of the history; distinct_sets.states = distinct (slot states, in-flight objects) seen.",
+           "non-trivial = >=4 events; distinct = hash of the history; distinct_sets.states = distinct (slot states, in-flight objects) seen. "
+           "net mode: a complete docs node (engine, router, real net::handle_connection) on loopback against a hand-driven peer: 4..12 steps of "
+           "request / hold / continue / kill a session, end a declined connection orderly, abruptly, by reset or by stop, pauses; judged at the "
+           "boundary: a request accepted while an earlier accepted session is held and then still answers, more end-of-session events than "
+           "accepted sessions, a decline after every accepted session was reported finished. non-trivial = a request declined while a session is held.",
     "C12": "case = 5..25 steps on one store actor: subscribe / unsubscribe / drop receiver (<=4 subscribers), policy change, local insert / "
            "delete, single remote entry (direct or as message; valid, superseded, forged), multi-entry messages with forged entries, "
            "sessions with a local write between two messages. non-trivial = subscriber churn happened and events were produced; distinct = hash of the trace.",
@@ -118,5 +122,6 @@ ASSUMPTIONS["C06"] = ["a copy of the database file taken while no write is in pr
                       "the shadow instance (in-memory store running the same calls under the same clock) passes through the same logical states"]
 ASSUMPTIONS["C09"] = ["the hand-written postcard encoder in harness/src/wire.rs and the three hex snapshots of the test-suite define the pinned encodings"]
 ASSUMPTIONS["C10"] = ["an in-memory duplex pipe models the QUIC stream; a cut is an orderly end-of-stream (a transport reset would be an error on both sides)"]
-ASSUMPTIONS["C11"] = ["the network model imposes only causality (a session end needs its Allow, a reply needs its Reject); completion handlers are invoked directly rather than through the live actor's select loop"]
+ASSUMPTIONS["C11"] = ["the network model imposes only causality (a session end needs its Allow, a reply needs its Reject); completion handlers are invoked directly rather than through the live actor's select loop",
+                      "net mode: the live actor frees the slot before it emits the SyncFinished event of a session (read off on_sync_finished); loopback QUIC stands for the network"]
 ASSUMPTIONS["C17"] = ["two consecutive registrations obtain distinct wall-clock nanosecond readings"]
